@@ -39,7 +39,9 @@ vars == <<pi, ci, fi, stack, ret, stepst, forced, hookFailed, shouldSkip, rt, ct
 
 P      == Cases[pi]
 prog   == P.prog
-cfg    == P.cfgs[ci]
+RawCfg == P.cfgs[ci]
+\* --wip (Configuration.setup_wip_mode): only scenarios tagged wip, stop at the first failure, stdout and logging not captured
+cfg    == IF RawCfg.wip THEN [RawCfg EXCEPT !.stop = TRUE, !.cap_out = FALSE, !.cap_log = FALSE] ELSE RawCfg
 faults == P.faults[fi]          \* <<a, b>>: the a-th and b-th hook invocations raise (0 = none)
 N      == Len(prog)
 Features == P.features
@@ -57,7 +59,7 @@ Eval(n, tags) == LET x == cfg.nodes[n] IN
      [] x.op = "not"  -> ~Eval(x.a, tags)
      [] x.op = "and"  -> Eval(x.a, tags) /\ Eval(x.b, tags)
      [] x.op = "or"   -> Eval(x.a, tags) \/ Eval(x.b, tags)
-TagMatch(el) == Eval(cfg.root, Eff(el))
+TagMatch(el) == Eval(cfg.root, Eff(el)) /\ (cfg.wip => "wip" \in Eff(el))
 RECURSIVE RunWithTags(_)
 RunWithTags(el) ==        \* should_run_with_tags of containers and outlines: own match or any child's
    IF prog[el].kind = "scenario" THEN TagMatch(el)
